@@ -5,6 +5,9 @@
 //!     | {"r":"err","msg":..}
 //!    `semver::VersionReq::parse` (the parser typify calls) printed field by
 //!    field, and `req.matches(&v)` (what typify calls) for every version.
+//! {"op":"paths","paths":[<str>..]} -> {"r":"ok","type_path":[bool..]}
+//!    `syn::parse_str::<syn::TypePath>(p).is_ok()`, the test convert_rust_extension
+//!    applies to the extension's `path` (same syn version through Cargo.lock).
 //! {"op":"pipe", "settings":.., "steps":[..]}
 //!    -> the real pipeline (`vh::gen_case`) reduced to what C13 observes:
 //!       step results, top-level items (kind, name, field types), the public
@@ -46,6 +49,17 @@ fn req_case(case: &Value) -> Value {
         })
         .collect();
     json!({"r":"ok","comparators":comps,"versions":vers})
+}
+
+fn paths_case(case: &Value) -> Value {
+    let empty = vec![];
+    let v: Vec<bool> = case["paths"]
+        .as_array()
+        .unwrap_or(&empty)
+        .iter()
+        .map(|p| syn::parse_str::<syn::TypePath>(p.as_str().unwrap_or("")).is_ok())
+        .collect();
+    json!({"r":"ok","type_path":v})
 }
 
 fn pipe_case(case: &Value) -> Value {
@@ -98,6 +112,7 @@ fn main() {
     vh::run_lines(|case| match case["op"].as_str().unwrap_or("") {
         "req" => req_case(case),
         "pipe" => pipe_case(case),
-        _ => json!({"r":"badcase","msg":"op must be req|pipe"}),
+        "paths" => paths_case(case),
+        _ => json!({"r":"badcase","msg":"op must be req|pipe|paths"}),
     });
 }
